@@ -33,9 +33,11 @@ def parentFrames (fs : List Frame) (bytes : Bytes) : List Frame :=
 theorem capture_exact (c : Cons) (op : Cons → Prog Cons) (hop : ∀ c, Uses Op.notCap (op c))
     (g : G) (bytes : Bytes) (c' : Cons) (g' : G)
     (h : runG (capture c op) g = .ok ((bytes, c'), g')) :
-    ∃ k, k ≤ g.data.length ∧ bytes = g.data.take k ∧ g'.data = g.data.drop k ∧
+    ∃ k, k ≤ g.data.length ∧
+      bytes = g.data.take (k - (if c'.state = c.state then 0 else c'.eoc)) ∧
+      g'.data = g.data.drop k ∧
       g'.limit = g.limit.map (· - k) ∧
-      g'.frames = parentFrames g.frames bytes ∧
+      g'.frames = parentFrames g.frames (g.data.take k) ∧
       c'.mode = c.mode := by
   unfold capture at h
   simp only [runG_bind] at h
@@ -73,22 +75,30 @@ theorem capture_exact (c : Cons) (op : Cons → Prog Cons) (hop : ∀ c, Uses Op
     | none =>
       simp [hlim, runG] at h
       obtain ⟨⟨h1, h2⟩, h3⟩ := h
-      subst h1; subst h2; subst h3
-      exact ⟨k, hk, rfl, hd, by simp, rfl, rfl⟩
+      subst h2; subst h3
+      refine ⟨k, hk, ?_, hd, by simp, rfl, rfl⟩
+      rw [← h1]
+      by_cases hs : c1.state = c.state
+      · simp [hs]
+      · simp only [hs, if_false]; rw [List.take_take]; congr 1; omega
     | some l =>
       simp only [hlim] at h
       by_cases hl : l < k
       · simp [hl] at h
       · simp [hl, runG] at h
         obtain ⟨⟨h1, h2⟩, h3⟩ := h
-        subst h1; subst h2; subst h3
-        exact ⟨k, hk, rfl, hd, by simp, rfl, rfl⟩
+        subst h2; subst h3
+        refine ⟨k, hk, ?_, hd, by simp, rfl, rfl⟩
+        rw [← h1]
+        by_cases hs : c1.state = c.state
+        · simp [hs]
+        · simp only [hs, if_false]; rw [List.take_take]; congr 1; omega
 
 /-- C11.1 — `capture_one` -/
 theorem capture_one_exact (c : Cons) (fuel : Nat) (g : G) (bytes : Bytes) (c' : Cons) (g' : G)
     (h : runG (captureOne c fuel) g = .ok ((bytes, c'), g')) :
-    ∃ k, k ≤ g.data.length ∧ bytes = g.data.take k ∧ g'.data = g.data.drop k ∧
-      g'.limit = g.limit.map (· - k) := by
+    ∃ k, k ≤ g.data.length ∧ bytes = g.data.take (k - (if c'.state = c.state then 0 else c'.eoc)) ∧
+      g'.data = g.data.drop k ∧ g'.limit = g.limit.map (· - k) := by
   obtain ⟨k, h1, h2, h3, h4, _, _⟩ := capture_exact c _ (fun c => by
     apply uses_of_nocap
     have := nocap_mandatory _ (nocap_skipOne c fuel)
@@ -98,18 +108,19 @@ theorem capture_one_exact (c : Cons) (fuel : Nat) (g : G) (bytes : Bytes) (c' : 
 /-- C11.1 — `capture_all` -/
 theorem capture_all_exact (c : Cons) (fuel : Nat) (g : G) (bytes : Bytes) (c' : Cons) (g' : G)
     (h : runG (captureAll c fuel) g = .ok ((bytes, c'), g')) :
-    ∃ k, k ≤ g.data.length ∧ bytes = g.data.take k ∧ g'.data = g.data.drop k ∧
-      g'.limit = g.limit.map (· - k) := by
+    ∃ k, k ≤ g.data.length ∧ bytes = g.data.take (k - (if c'.state = c.state then 0 else c'.eoc)) ∧
+      g'.data = g.data.drop k ∧ g'.limit = g.limit.map (· - k) := by
   obtain ⟨k, h1, h2, h3, h4, _, _⟩ := capture_exact c _ (fun c => uses_of_nocap (nocap_skipAll fuel c))
     g bytes c' g' h
   exact ⟨k, h1, h2, h3, h4⟩
 
-/-- C11.2 (full statement REFUTED, known finding D12): inside the indefinite-length value
-    `30 80 05 00 00 00`, `capture_all` over the content `05 00 00 00` returns the NULL value
-    TOGETHER WITH the two end-of-contents octets of the enclosing value. -/
-theorem eoc_counterexample :
-    runG (captureAll ⟨.indefinite, .ber⟩ 8) { data := [0x05, 0x00, 0x00, 0x00], limit := none } =
-      .ok (([0x05, 0x00, 0x00, 0x00], ⟨.done, .ber⟩), { data := [], limit := none }) := by
+/-- C11.2 — never the end-of-contents marker of the enclosing value (the witness of the former
+    defect D12): inside the indefinite-length value `30 80 05 00 00 00`, `capture_all` over the
+    content `05 00 00 00` returns the NULL value WITHOUT the two end-of-contents octets, although
+    the closure has advanced over them (the source is behind them, the state is done). -/
+theorem eoc_not_captured :
+    runG (captureAll ⟨.indefinite, .ber, 0⟩ 8) { data := [0x05, 0x00, 0x00, 0x00], limit := none } =
+      .ok (([0x05, 0x00], ⟨.done, .ber, 2⟩), { data := [], limit := none }) := by
   rfl
 
 end Bcder.Props.C11
